@@ -338,13 +338,19 @@ fn xml_style_comments_parser(
 
 fn c_style_multiline_comment_processor(comment: &str) -> String {
     let mut result = String::with_capacity(comment.len());
-    let open_idx = comment.find("/*").expect("expected '/*' in a comment");
-    let close_idx = comment.rfind("*/").expect("expected '*/' in a comment");
+    // Source that does not parse can yield comments without their delimiters (e.g. an unterminated
+    // "/* ..." at the end of a file): such a comment simply has no closing delimiter to blank out.
+    let Some(open_idx) = comment.find("/*") else {
+        return comment.to_string();
+    };
+    let close_idx = comment
+        .rfind("*/")
+        .filter(|close_idx| *close_idx >= open_idx + 2);
     // Add everything before the "/*"
     result.push_str(&comment[..open_idx]);
     // Replace "/*" with spaces.
     result.push_str("  ");
-    let content = &comment[open_idx + 2..close_idx];
+    let content = &comment[open_idx + 2..close_idx.unwrap_or(comment.len())];
     for line in content.split_inclusive('\n') {
         let mut decorative_star_found = false;
 
@@ -366,10 +372,12 @@ fn c_style_multiline_comment_processor(comment: &str) -> String {
             result.push_str(line);
         }
     }
-    // Replace "*/" with spaces.
-    result.push_str("  ");
-    // Add everything after the "*/".
-    result.push_str(&comment[close_idx + 2..]);
+    if let Some(close_idx) = close_idx {
+        // Replace "*/" with spaces.
+        result.push_str("  ");
+        // Add everything after the "*/".
+        result.push_str(&comment[close_idx + 2..]);
+    }
 
     result
 }
